@@ -220,16 +220,63 @@ Fixpoint f_takes (l : flim) (t : Z) (m : nat) : list bool :=
 Definition fsys := sys flim.
 Definition xsys := sys xlim.
 
+(* ------------------------------------------------------------------ the limiter layer
+   pkg/appparts/internal/limiter: which limits of the application apply to a request and in which
+   bucket each is accounted.  A limit's filter is data here (the resources it matches). *)
+Record limit := mkLimit { l_name : N; l_ops : list N; l_each : bool; l_ws : bool; l_ip : bool;
+                          l_matches : list N; l_period : Z; l_count : Z }.
+Record request := mkReq { r_res : N; r_op : N; r_ws : N; r_addr : N }.
+Definition mem_N (x : N) (l : list N) : bool := existsb (N.eqb x) l.
+Definition applies (q : request) (l : limit) : bool := mem_N (r_res q) (l_matches l) && mem_N (r_op q) (l_ops l).
+(* the limits that cover (resource, operation), in the order of the application's limit list *)
+Definition limits_for (ls : list limit) (q : request) : list limit := filter (applies q) ls.
+Definition rest_id (ws addr res : N) : N := (1000000 + ws * 10000 + addr * 100 + res)%N.
+(* BucketKey: workspace / address only for rates of that scope, the resource only for EACH *)
+Definition key_of (q : request) (l : limit) : key :=
+  (l_name l, rest_id (if l_ws l then r_ws q else 0%N) (if l_ip l then r_addr q else 0%N) (if l_each l then r_res q else 0%N)).
+Definition req_keys (ls : list limit) (q : request) : list key := map (key_of q) (limits_for ls q).
+Definition limit_default (l : limit) : bstate := mkBS (l_period l) (l_count l) 0.
+
 (* ------------------------------------------------------------------ traces *)
 Inductive op :=
 | OSetDefault (name : N) (s : bstate)
 | OTake (keys : list key) (n : Z) (ok : bool) (exc : N)      (* exc = 0: NullQName *)
 | OGet (k : key) (found : bool) (s : bstate)
 | OSet (k : key) (s : bstate) (found : bool)
-| OReset (name : N) (s : bstate).
+| OReset (name : N) (s : bstate)
+(* through the limiter (IAppPartition.IsLimitExceeded / ResetRateLimit); lowered before replay *)
+| OExceeded (q : request) (exceeded : bool) (exc : N)
+| OResetLimits (q : request).
 Inductive ev := Ev (t : Z) (o : op).
 (* tr_xdiff: number of observables outside the X model, as counted by the harness' port of X *)
-Record trace := mkTrace { tr_xdiff : N; tr_evs : list ev }.
+Record trace := mkTrace { tr_xdiff : N; tr_limits : list limit; tr_evs : list ev }.
+
+(* Limiter.init registers every limit's rate as default state; Exceeded is one TakeTokens(keys, 1)
+   over the applicable limits (no call at all when there is none); ResetLimits sets each applicable
+   bucket to its default state.  None: a request without applicable limit was reported exceeded. *)
+Fixpoint lower (ls : list limit) (l : list ev) : option (list ev) :=
+  match l with
+  | [] => Some []
+  | Ev t o :: r =>
+      match lower ls r with
+      | None => None
+      | Some r' =>
+          match o with
+          | OExceeded q ex exc =>
+              match req_keys ls q with
+              | [] => if ex || negb (exc =? 0)%N then None else Some r'
+              | keys => Some (Ev t (OTake keys 1 (negb ex) exc) :: r')
+              end
+          | OResetLimits q => Some (map (fun lm => Ev t (OSet (key_of q lm) (limit_default lm) true)) (limits_for ls q) ++ r')
+          | _ => Some (Ev t o :: r')
+          end
+      end
+  end.
+Definition lowered (t : trace) : option (list ev) :=
+  match lower (tr_limits t) (tr_evs t) with
+  | None => None
+  | Some r => Some (map (fun lm => Ev 0 (OSetDefault (l_name lm) (limit_default lm))) (tr_limits t) ++ r)
+  end.
 
 Definition opt_state (o : option bstate) : bool * bstate :=
   match o with Some s => (true, s) | None => (false, bs_zero) end.
@@ -252,6 +299,7 @@ Fixpoint f_replay (s : fsys) (l : list ev) : bool :=
           let '(found', s') := set_state f_new s t k st in
           Bool.eqb found found' && f_replay s' r
       | OReset name st => f_replay (reset_name f_new s t name st) r
+      | _ => f_replay s r
       end
   end.
 
@@ -294,11 +342,15 @@ Fixpoint x_follow (s : xsys) (l : list ev) : N :=
           let '(found', s') := set_state x_new s t k st in
           ((if Bool.eqb found found' then 0 else 1) + x_follow s' r)%N
       | OReset name st => x_follow (reset_name x_new s t name st) r
+      | _ => x_follow s r
       end
   end.
 
 Definition agrees (t : trace) : bool :=
-  f_replay (sys0 (L:=flim)) (tr_evs t) && (x_follow (sys0 (L:=xlim)) (tr_evs t) =? tr_xdiff t)%N.
+  match lowered t with
+  | None => false
+  | Some evs => f_replay (sys0 (L:=flim)) evs && (x_follow (sys0 (L:=xlim)) evs =? tr_xdiff t)%N
+  end.
 
 (* ------------------------------------------------------------------ the property oracle
    Judges the statement on the observed outputs only.  Per bucket it keeps the configuration in
@@ -310,7 +362,12 @@ Definition agrees (t : trace) : bool :=
 Inductive ckind := CZero | CUnl | CNorm (i : Z).
 Definition ckind_of (s : bstate) : ckind :=
   if bs_max s =? 0 then CZero
-  else let i := Z.quot (bs_period s) (bs_max s) in if i <=? 0 then CUnl else CNorm i.
+  else if bs_period s <? 0 then CUnl   (* a negative period means nothing: not judged *)
+  else CNorm (Z.quot (bs_period s) (bs_max s)).
+(* CNorm 0: N >= 1 operations per period P with 0 <= P < N (an interval below 1 ns).  The window
+   bound is undefined there (division by zero) but "a fresh or reset bucket admits exactly N at
+   once" and "one instant admits at most N" are not: such a bucket is judged at single instants
+   (the code makes it unlimited: finding F23). *)
 
 Record orec := mkO { o_known : bool; o_cfg : bstate; o_at : Z; o_avail : option Z;
                      o_adm : list (Z * Z); o_get : option (Z * Z) }.
@@ -318,7 +375,7 @@ Record ostate := mkOS { os_b : list (key * orec); os_d : list (N * bstate) }.
 
 Definition o_fresh (s : bstate) (t : Z) : orec :=
   let av := match ckind_of s with
-            | CNorm _ => if maxd <=? t then Some (if bs_taken s <=? bs_max s then bs_max s - bs_taken s else bs_max s) else None
+            | CNorm _ => if maxd <=? t then Some (Z.max 0 (bs_max s - bs_taken s)) else None
             | _ => None
             end in
   mkO true s t av [] None.
@@ -351,7 +408,7 @@ Fixpoint windows_ok (nmax i t : Z) (adm : list (Z * Z)) (sum : Z) : bool :=
   | [] => true
   | (tj, a) :: r =>
       let s := sum + a in
-      (s <=? nmax + (t - tj) / i + 1) && (if tj =? t then s <=? nmax else true) && windows_ok nmax i t r s
+      ((i =? 0) || (s <=? nmax + (t - tj) / i + 1)) && (if tj =? t then s <=? nmax else true) && windows_ok nmax i t r s
   end.
 
 (* an admitted request of n charged to one bucket; None = the statement is violated *)
@@ -491,6 +548,7 @@ Definition o_step (s : ostate) (e : ev) : option ostate :=
       | None => Some s
       | Some _ => Some (mkOS (map (fun e => if (fst (fst e) =? name)%N && o_known (snd e) then (fst e, o_fresh st t) else e) (os_b s)) (os_d s))
       end
+  | _ => Some s
   end.
 
 Fixpoint o_run (s : ostate) (l : list ev) : bool :=
@@ -499,7 +557,11 @@ Fixpoint o_run (s : ostate) (l : list ev) : bool :=
   | e :: r => match o_step s e with None => false | Some s' => o_run s' r end
   end.
 
-Definition satisfies (t : trace) : bool := o_run (mkOS [] []) (tr_evs t).
+Definition satisfies (t : trace) : bool :=
+  match lowered t with
+  | None => false
+  | Some evs => o_run (mkOS [] []) evs
+  end.
 
 (* ------------------------------------------------------------------ histories on X
    (what the theorems of Properties/C19.v quantify over) *)
@@ -586,4 +648,24 @@ Fixpoint take_seq (s : xsys) (t : Z) (k : key) (cs : list (list bool)) : list bo
   match cs with
   | [] => []
   | c :: r => let '(ok, _, s') := xtake s t c [k] 1 in ok :: take_seq s' t k r
+  end.
+
+(* ------------------------------------------------------------------ requests through the limiter on X *)
+Definition xexceeded (s : xsys) (t : Z) (coins : list bool) (ls : list limit) (q : request) : bool * N * xsys :=
+  match req_keys ls q with
+  | [] => (false, 0%N, s)
+  | keys => let '(ok, exc, s') := xtake s t coins keys 1 in (negb ok, exc, s')
+  end.
+
+(* would the bucket of key k (created from its default when missing; none: no limit) admit n now *)
+Definition bucket_admits (coin : bool) (s : xsys) (t : Z) (k : key) (n : Z) : bool :=
+  match fst (bucket_by_key x_new s t k) with
+  | None => true
+  | Some b => fst (x_allow coin (fst b) t n)
+  end.
+
+Fixpoint all_admit (s : xsys) (t n : Z) (coins : list bool) (keys : list key) : bool :=
+  match keys with
+  | [] => true
+  | k :: r => bucket_admits (hd false coins) s t k n && all_admit s t n (tl coins) r
   end.
